@@ -536,6 +536,16 @@ class AccessoryConn(asyncio.Protocol):
                 return self.send(self._tlv_reply([(6, b"\x04"), (7, b"\x02")]))
             reply = self.exchange.m3(items)
             self.send(self._tlv_reply(reply))
+            if mode == "ok_reset_after_m4" and self.exchange.verified:
+                # the session is established; the accessory stops reading and resets the connection a moment later, while the
+                # controller's first request of the session is unread (abortive close: ECONNRESET, no EOF first)
+                self.secure = True
+                self.transport.pause_reading()
+                asyncio.get_running_loop().call_later(0.05, self.transport.abort)
+                return None
+            if mode == "ok_close_after_m4" and self.exchange.verified:
+                # the session is established (M4 sent) and the accessory hangs up at once
+                return self.close()
             if self.exchange.verified:
                 self.secure = True
                 self.decoder = refsession.Decoder(self.exchange.controller_to_accessory_key)
